@@ -1093,9 +1093,9 @@ fn worker(me: usize, spec: &ExecSpec, region: (usize, usize), out: &mut ThreadOu
     pass_baton(CTRL);
     // ---- phase: solo ----
     wait_baton(me as i32);
-    // alone, a JIT execution with an atomic add on its own stack is single-stepped throughout: the
+    // alone, a compiled execution with an atomic add on its own stack is single-stepped throughout: the
     // stack is not on the monitored page, so this is the only way to see how that add is encoded
-    let stepped = spec.engine == Engine::Jit && spec.stack_check.is_some();
+    let stepped = spec.engine != Engine::Interp && spec.stack_check.is_some();
     out.solo = match &mut built {
         Ok(vm) if stepped => conv(guarded(me, || exec_vm_stepped(me, vm, spec.engine, region))),
         Ok(vm) => conv(guarded(me, || exec_vm(vm, spec.engine, region))),
